@@ -55,7 +55,7 @@ m("C02", "operators/tee_map.py", "                        # a lifetime ended by 
 m("C02", "operators/tee_map.py", "                        # a lifetime ended by an error leaves values behind\n                        base_index = x.key[0] * n\n                        for index in range(n):\n                            queue[base_index+index] = None\n                            has_next[base_index+index] = False\n", "                            base_index = x.key[0] * n\n                            for index in range(n):\n                                queue[base_index+index] = None\n                                has_next[base_index+index] = False\n", "fire", ["ST-5"], "round r: the slots cleared only when the tables grow (a reset under a condition is no reset)")
 m("C02", "operators/tee_map.py", "                        # a lifetime ended by an error leaves values behind\n                        base_index = x.key[0] * n\n                        for index in range(n):\n                            queue[base_index+index] = None\n                            has_next[base_index+index] = False\n", "                        base_index = x.key[0] * n\n                        queue[base_index:base_index+n] = [None] * n\n                        has_next[base_index:base_index+n] = array('B', [False] * n)\n", "silent", [], "round r: the key's slots cleared by two slice assignments")
 m("C02", "operators/tee_map.py", "                        # a lifetime ended by an error leaves values behind\n                        base_index = x.key[0] * n\n                        for index in range(n):\n                            queue[base_index+index] = None\n                            has_next[base_index+index] = False\n", "                        base_index = x.key[0] * n\n                        queue[base_index:base_index+n-1] = [None] * (n-1)\n                        has_next[base_index:base_index+n] = array('B', [False] * n)\n", "fire", ["ST-5"], "round r: the slice leaves the last branch's slot out")
-m("C02", "operators/tee_map.py", "                        # a lifetime ended by an error leaves values behind\n                        base_index = x.key[0] * n\n                        for index in range(n):\n                            queue[base_index+index] = None\n                            has_next[base_index+index] = False\n                    observer.on_next(x)\n                return\n\n            elif isinstance(x, rs.OnCompletedMux):", "                    observer.on_next(x)\n                return\n\n            elif isinstance(x, rs.OnErrorMux):\n                if zip is True or combine is True:\n                    base_index = x.key[0] * n\n                    for index in range(n):\n                        queue[base_index+index] = None\n                        has_next[base_index+index] = False\n                observer.on_next(x)\n                return\n\n            elif isinstance(x, rs.OnCompletedMux):", "silent", [], "round r: the slots cleared when the key completes and when it fails, not when it is created")
+m("C02", "operators/tee_map.py", "                        # a lifetime ended by an error leaves values behind\n                        base_index = x.key[0] * n\n                        for index in range(n):\n                            queue[base_index+index] = None\n                            has_next[base_index+index] = False\n                    observer.on_next(x)\n                return\n\n            elif isinstance(x, rs.OnCompletedMux):", "                    observer.on_next(x)\n                return\n\n            elif isinstance(x, rs.OnErrorMux):\n                if zip is True or combine is True:\n                    base_index = x.key[0] * n\n                    for index in range(n):\n                        queue[base_index+index] = None\n                        has_next[base_index+index] = False\n                observer.on_next(x)\n                return\n\n            elif isinstance(x, rs.OnCompletedMux):", "fire", ["ST-5"], "the slots cleared when the key completes and when a mux error passes, not when it is created: first written here as an equivalent form, shown to be a defect by seeded change C08s (a mux error is one failing item of a key that goes on)")
 m("C19", "io/file.py", "                    f = open_obj(file, mode, encoding=encoding)", "                    kwargs = dict(mode=mode, encoding=encoding)\n                    f = open_obj(file, **kwargs)", "silent", [], "round r: the opener's arguments in a dict(...) that always carries mode and encoding")
 m("C19", "io/file.py", "                    f = open_obj(file, mode, encoding=encoding)", "                    f = open_obj(file, mode)", "fire", ["FH-1"], "round r: the opener is not given the encoding keyword")
 m("C19", "io/file.py", "                    with open_obj(file, mode, encoding=encoding) as f:", "                    with open_obj(file, mode) as f:", "fire", ["FR-3"], "round r: the opener of file.read is not given the encoding keyword")
